@@ -207,11 +207,12 @@ def big_cases(rec, hub, rng, n_cases):
     from ..oracles import big
 
     fd = hub.fd
-    pairs = [("abc", "cab"), ("abcd", "db"), ("abc", "ca"), ("cba", "ad"), ("ab", "cbd"), ("abc", "abc"), ("abc", "bc"), ("ab", "bcd"), ("b", "ab"), ("abc", ""), ("bac", "cba"), ("acb", "dca")]
+    # first pair: the LARGE operand has to be summed (over b) and its remaining dimensions stand in the other relative order than in x
+    pairs = [("ac", "cba"), ("abc", "cab"), ("abcd", "db"), ("abc", "ca"), ("cba", "ad"), ("ab", "cbd"), ("abc", "abc"), ("abc", "bc"), ("ab", "bcd"), ("b", "ab"), ("abc", ""), ("bac", "cba"), ("acb", "dca")]
     start = int(rng.integers(0, len(pairs)))
     for k in range(n_cases):
         U = gen.big_universe(fd, rng)
-        la, lb = pairs[(start * (n_cases > 4) + k) % len(pairs)]  # the quick tier always takes the first ones: other relative axis orders
+        la, lb = pairs[(start * (n_cases > 5) + k) % len(pairs)]  # the quick tier always takes the first ones: other relative axis orders
         reg = "dyadic" if rng.random() < 0.5 else "real"
         vx = gen.relayout(gen.big_values(rng, gen.shape_of(U, la), reg), rng)
         vy = gen.big_values(rng, gen.shape_of(U, lb), reg)
@@ -234,7 +235,7 @@ def run(rec, hub, tier, seed, shard, nshards, budget):
     rec.require("large-arrays", 5)
     rec.require("scalar-results", 20)
     rec.set_case(driver="c01.big", seed=seed, tier=tier, shard=shard, nshards=nshards, idx=shard)
-    big_cases(rec, hub, case_nprng(seed, "c01.big", shard, 0), 4 if tier == "quick" else 8)
+    big_cases(rec, hub, case_nprng(seed, "c01.big", shard, 0), 5 if tier == "quick" else 9)
     if shard == 0:
         trace_equivalence(rec, hub, seed)
     if tier == "quick":
@@ -290,7 +291,7 @@ def replay(rec, hub, case):
     tier = case.get("tier", "quick")
     if case["driver"] == "c01.big":
         rec.set_case(**case)
-        big_cases(rec, hub, case_nprng(case["seed"], "c01.big", case.get("shard", 0), 0), 4 if tier == "quick" else 8)
+        big_cases(rec, hub, case_nprng(case["seed"], "c01.big", case.get("shard", 0), 0), 5 if tier == "quick" else 9)
         return
     letters, patterns = ("abc", gen.LENGTH_PATTERNS[3]) if tier == "quick" else ("abcd", gen.LENGTH_PATTERNS[4])
     pat = case["pattern"]
